@@ -116,3 +116,38 @@ impl HeaderMap {
         self.inner.remove(hash)
     }
 }
+
+/// verification hooks: a map without the background spill task, a synchronous spill trigger and
+/// read-only views of the two tiers; add-only, off by default
+#[cfg(feature = "verif-hooks")]
+impl HeaderMap {
+    /// like `new`, with the memory limit given in items and no periodic `limit_memory` task
+    pub fn verif_new<P>(tmpdir: Option<P>, size_limit: usize, ibd_finished: Arc<AtomicBool>) -> Self
+    where
+        P: AsRef<path::Path>,
+    {
+        Self {
+            inner: Arc::new(HeaderMapKernel::new(tmpdir, size_limit, ibd_finished)),
+        }
+    }
+
+    /// what the periodic task does
+    pub fn verif_limit_memory(&self) {
+        self.inner.limit_memory()
+    }
+
+    /// memory-tier keys in LRU order (front = next to spill)
+    pub fn verif_memory_keys(&self) -> Vec<Byte32> {
+        self.inner.memory.verif_keys()
+    }
+
+    /// backend item counter
+    pub fn verif_backend_len(&self) -> usize {
+        self.inner.backend.len()
+    }
+
+    /// backend membership
+    pub fn verif_backend_contains(&self, hash: &Byte32) -> bool {
+        self.inner.backend.contains_key(hash)
+    }
+}
